@@ -583,6 +583,78 @@ def growth_twins(ck, seed, n_rounds):
     ck.sample({"kind": "growth twins", "first_ops": [f[0] for f in firsts], "rounds": n_rounds})
 
 
+def outside_twins(ck, seed, n_rounds):
+    """A call that fails while its inline block mentions a field of another object, then calls that mention that field
+    again (inline on the first object, a class constraint of the second) - against the history without the failed call."""
+    import vsc
+    from vsc.model.rand_state import RandState
+    rng = random.Random("C16/outside/%d" % seed)
+
+    def classes():
+        @vsc.randobj
+        class B:
+            def __init__(self):
+                self.y = vsc.uint8_t(5)
+                self.w = vsc.rand_uint8_t()
+
+            @vsc.constraint
+            def c(self):
+                self.w > self.y
+
+        @vsc.randobj
+        class A:
+            def __init__(self):
+                self.x = vsc.rand_uint8_t()
+        return A, B
+
+    def unsat_outside(a, b):
+        with a.randomize_with() as it:
+            it.x == b.y
+            it.x != 5
+
+    def unsat_outside_rand(a, b):
+        with a.randomize_with() as it:
+            it.x == b.w
+            it.x != b.w
+    firsts = [("unsat-inline-mentions-outside-nonrandom-field", unsat_outside), ("unsat-inline-mentions-outside-random-field", unsat_outside_rand)]
+
+    def history(first, seeds):
+        A, B = classes()
+        a, b = A(), B()
+        if first is not None:
+            a.set_randstate(RandState.mkFromSeed(seeds[0]))
+            try:
+                with common.quiet():
+                    first(a, b)
+            except Exception:
+                pass
+        out = []
+        for k, sd in enumerate(seeds[1:]):
+            try:
+                with common.quiet():
+                    if k % 2 == 0:
+                        a.set_randstate(RandState.mkFromSeed(sd))
+                        with a.randomize_with() as it:
+                            it.x == b.y
+                        out.append(["ok", int(a.x)])
+                    else:
+                        b.set_randstate(RandState.mkFromSeed(sd))
+                        b.randomize()
+                        out.append(["ok", int(b.w)])
+            except Exception as e:
+                out.append(["raised", type(e).__name__])
+        return out
+    for rnd in range(n_rounds):
+        seeds = [rng.randrange(1 << 30) for _ in range(5)]
+        twin = history(None, seeds)
+        for name, first in firsts:
+            got = history(first, seeds)
+            ck.count("eval_outside_twins")
+            if got != twin:
+                k = next(i for i in range(len(twin)) if got[i] != twin[i])
+                ck.oracle_fail("later-call-differs-after-failed-call:" + name, {"first": name, "seeds": seeds, "call": k}, got[k], twin[k])
+
+
 def main():
     tier, seed, replay = common.parse_args(sys.argv[1:])
     ck = common.Check("C16", tier, seed, ["C16"])
@@ -596,6 +668,7 @@ def main():
     import solvelib as S_
     S_.install()
     growth_twins(ck, seed, 40 if tier == "thorough" else 3)
+    outside_twins(ck, seed, 40 if tier == "thorough" else 3)
     for r in results:
         for k, v in r["counts"].items():
             ck.count(k, v)
